@@ -20,7 +20,34 @@ import (
 
 type op int
 
+// panicOps: the operations that panic in the current run (set before the Processor is made).
+var panicOpsV atomic.Value // map[int]bool, never modified after being stored
+
+func setPanicOps(m map[int]bool) { panicOpsV.Store(m) }
+func panics(i int) bool {
+	m, _ := panicOpsV.Load().(map[int]bool)
+	return m[i]
+}
+
+const panicPrefix = "concurrent: processor panic: p"
+
+// resultOp decodes a Result: the operation it belongs to, and whether it is what that operation gives.
+func resultOp(v interface{}, err error) (i int, ok bool) {
+	if v == nil && err != nil && strings.HasPrefix(err.Error(), panicPrefix) {
+		fmt.Sscanf(err.Error()[len(panicPrefix):], "%d", &i)
+		return i, panics(i)
+	}
+	i, _ = v.(int)
+	if panics(i) {
+		return i, false
+	}
+	return i, (i%2 == 0) == (err != nil) && (err == nil || err.Error() == fmt.Sprintf("e%d", i))
+}
+
 func (o op) Operation() (interface{}, error) {
+	if panics(int(o)) {
+		panic(fmt.Sprintf("p%d", int(o)))
+	}
 	if o%2 == 0 {
 		return int(o), fmt.Errorf("e%d", int(o))
 	}
@@ -33,6 +60,7 @@ type ProcSchedule struct {
 	N     int         `json:"n"`
 	B     int         `json:"b"`
 	Q     int         `json:"q"`
+	Bad   []int       `json:"bad"`
 	Got   []int       `json:"got"`
 	Sched []gate.Step `json:"sched"`
 }
@@ -65,6 +93,12 @@ func RunProcSchedule(id int, s ProcSchedule, timeout time.Duration) vt.Ev {
 	}
 	defer func() { concurrent.VerifStep = nil }()
 
+	pm := map[int]bool{}
+	for _, i := range s.Bad {
+		pm[i] = true
+	}
+	setPanicOps(pm)
+	ev["bad"] = append([]int{}, s.Bad...)
 	queue := make(chan concurrent.Operator, s.Q)
 	p := concurrent.NewProcessor(queue, s.B, s.T)
 	cur.Store(p)
@@ -92,8 +126,8 @@ func RunProcSchedule(id int, s ProcSchedule, timeout time.Duration) vt.Ev {
 			if v == nil && err == nil {
 				return // closed
 			}
-			i, _ := v.(int)
-			if (i%2 == 0) != (err != nil) || (err != nil && err.Error() != fmt.Sprintf("e%d", i)) {
+			i, ok := resultOp(v, err)
+			if !ok {
 				badResult = fmt.Sprintf("result (%v, %v) is not what any operation returned", v, err)
 			}
 			got = append(got, i)
@@ -202,8 +236,13 @@ func ReplayProc(path, out string, skip int, timeout time.Duration) {
 	}
 	sc := bufio.NewScanner(f)
 	sc.Buffer(make([]byte, 1<<20), 1<<26)
-	n := 0
+	n, failures := 0, 0
 	for sc.Scan() {
+		if failures >= 6 {
+			// enough divergences to report; each costs several time-outs
+			emit(vt.Ev{"op": "stopped", "id": n})
+			break
+		}
 		if n < skip {
 			n++
 			continue
@@ -223,6 +262,8 @@ func ReplayProc(path, out string, skip int, timeout time.Duration) {
 			}
 			if !confirmed {
 				ev["ok"], ev["retried"] = true, true
+			} else {
+				failures++
 			}
 		}
 		emit(ev)
